@@ -7,6 +7,8 @@ package kbucket
 import (
 	"encoding/hex"
 	"fmt"
+	"strconv"
+	"strings"
 	"testing"
 
 	ocommon "github.com/ontio/ontology/common"
@@ -16,6 +18,7 @@ import (
 type kbStep struct {
 	Name string `json:"name"` // Update | Remove | Nearest
 	P    int    `json:"p,omitempty"`
+	A    int    `json:"a,omitempty"` // Update: which address string the peer announces (0/1 = first)
 	T    int    `json:"t,omitempty"`
 	N    int    `json:"n,omitempty"`
 }
@@ -34,6 +37,10 @@ type kbObs struct {
 	Err     string  `json:"err,omitempty"`
 	Buckets [][]int `json:"buckets"`
 	Out     []int   `json:"out"`
+	Addr    []int   `json:"addr"`    // peer number -> address index recorded in the table (0: peer not in the table; -1: several pairs)
+	Size    int     `json:"size"`    // RouteTable.Size()
+	Listed  int     `json:"listed"`  // len(RouteTable.ListPeers())
+	Found   bool    `json:"found"`   // Remove: RouteTable.Find(p) still succeeds after the removal
 	Added   int     `json:"added"`   // PeerAdded callbacks during the step
 	Removed int     `json:"removed"` // PeerRemoved callbacks during the step
 }
@@ -76,6 +83,35 @@ func TestVerifKBReplay(t *testing.T) {
 		}
 		return bs
 	}
+	// address strings: "10.<a>.0.<p%250>:20338" -- the second octet tells which address the pair was inserted with
+	addrOf := func(p, a int) string {
+		if a < 1 {
+			a = 1
+		}
+		return fmt.Sprintf("10.%d.0.%d:20338", a, p%250)
+	}
+	addrSnapshot := func(rt *RouteTable) []int {
+		res := make([]int, len(in.IDs))
+		for _, b := range rt.Buckets {
+			for _, p := range b.Peers() {
+				n, ok := num[p.ID]
+				if !ok {
+					continue
+				}
+				a := -1
+				if parts := strings.Split(p.Address, "."); len(parts) == 4 {
+					if v, err := strconv.Atoi(parts[1]); err == nil {
+						a = v
+					}
+				}
+				if res[n-1] != 0 {
+					a = -1 // the same peer id twice in the table
+				}
+				res[n-1] = a
+			}
+		}
+		return res
+	}
 	for pi, path := range in.Paths {
 		rt := NewRoutingTable(in.K, local)
 		added, removed := 0, 0
@@ -98,7 +134,7 @@ func TestVerifKBReplay(t *testing.T) {
 				}()
 				switch st.Name {
 				case "Update":
-					err := rt.Update(ids[st.P], fmt.Sprintf("10.0.0.%d:20338", st.P%250))
+					err := rt.Update(ids[st.P], addrOf(st.P, st.A))
 					if err == nil {
 						o.Res = "ok"
 					} else if err == ErrPeerRejectedNoCapacity {
@@ -110,6 +146,7 @@ func TestVerifKBReplay(t *testing.T) {
 				case "Remove":
 					rt.Remove(ids[st.P])
 					o.Res = "ok"
+					_, o.Found = rt.Find(ids[st.P])
 				case "Nearest":
 					o.Res = "ok"
 					o.Out = []int{}
@@ -124,6 +161,9 @@ func TestVerifKBReplay(t *testing.T) {
 					panic("unknown step " + st.Name)
 				}
 				o.Buckets = snapshot(rt)
+				o.Addr = addrSnapshot(rt)
+				o.Size = rt.Size()
+				o.Listed = len(rt.ListPeers())
 			}()
 			o.Added, o.Removed = added, removed
 			out.Emit(o)
